@@ -49,7 +49,11 @@ def run(chk):
             if ext in ("md", "markdown") and bare:
                 continue
             # also: quoted attribute values continuing on the next comment line; files that end without a line terminator
-            r = langs.render(c["items"], ext, j, bare=bare, endsp=endsp, mlattr=(j % 3 == 1 and not bare), no_eol=(j % 4 >= 2))
+            r = langs.render(c["items"], ext, j, bare=bare, endsp=endsp, mlattr=(j % 3 == 1 and not bare), no_eol=(j % 4 >= 2),
+                             container=("tpl" if (ext in langs.TPL and j % 5 == 2) else None),
+                             # a block's own severity (or any other rule attribute) does not soften the parse error
+                             tag_attrs=({k: (' severity="warning"', ' severity="HINT" keep-sorted', ' severity="info" line-count="<9"')[(j + k) % 3]
+                                         for k in range(1, 8)} if (j % 4 == 1 and not bare) else None))
             files = {r["name"]: r["text"]}
             if j % 2:
                 files.update(HEALTHY)
